@@ -34,7 +34,9 @@ type Entry struct {
 	Shards   int  // thorough-tier process count (default 1 for enumerations, 8 otherwise)
 	Rule     string
 	Enum     bool
+	FuzzSecs int // thorough tier: seconds of coverage-guided fuzzing of the same generator+oracle (0 = none)
 	run      func(t *testing.T)
+	fuzz     func(f *testing.F)
 }
 
 var registry = map[string]*Entry{}
@@ -56,6 +58,9 @@ type Prop[C any] struct {
 	Quick, Thorough int
 	Shards          int
 	Race            bool
+	// FuzzSecs > 0 additionally runs Go's coverage-guided fuzzer over the same
+	// generator and oracle (bytes decoded by rapid.MakeFuzz) in the thorough tier.
+	FuzzSecs int
 	// Timeout is the per-case watchdog (default 60s). Expiry aborts the process
 	// with exit status 3 after writing the case as a replay file; the driver
 	// decides whether it is a reproducible hang.
@@ -86,7 +91,47 @@ func Register[C any](p Prop[C]) {
 		panic("duplicate property " + p.Name)
 	}
 	registry[p.Name] = &Entry{Name: p.Name, Quick: p.Quick, Thorough: p.Thorough, Race: p.Race,
-		Shards: p.Shards, Rule: p.Rule, Enum: p.Enum != nil, run: func(t *testing.T) { p.main(t) }}
+		Shards: p.Shards, Rule: p.Rule, Enum: p.Enum != nil, FuzzSecs: p.FuzzSecs,
+		run: func(t *testing.T) { p.main(t) }, fuzz: func(f *testing.F) { p.fuzzMain(f) }}
+}
+
+// FuzzNamed runs the coverage-guided variant of the sub-check named by $VERIF_PROP.
+func FuzzNamed(f *testing.F) {
+	name := os.Getenv("VERIF_PROP")
+	e := registry[name]
+	if e == nil {
+		f.Skip("VERIF_PROP not set or unknown")
+	}
+	e.fuzz(f)
+}
+
+func (p *Prop[C]) fuzzMain(f *testing.F) {
+	if p.Gen == nil {
+		f.Skip("enumerations are not fuzzed")
+	}
+	for _, n := range []int{0, 8, 64, 256, 1024} {
+		b := make([]byte, n)
+		for i := range b {
+			b[i] = byte(i*131 + n)
+		}
+		f.Add(b)
+	}
+	f.Fuzz(rapid.MakeFuzz(func(rt *rapid.T) {
+		c := p.Gen(rt)
+		raw, jerr := json.Marshal(c)
+		if jerr != nil {
+			panic("case not serialisable: " + jerr.Error())
+		}
+		if err := p.safeCheck(c, raw); err != nil {
+			kind := "violation"
+			if strings.HasPrefix(err.Error(), "PANIC:") {
+				kind = "panic"
+			}
+			path := p.writeReplay(kind, firstLine(err.Error()), raw)
+			fmt.Printf("VERIF-FAIL %s %s\n", p.Name, path)
+			rt.Fatalf("%s: %v\ncase: %s", p.Name, err, clip(string(raw), 2000))
+		}
+	}))
 }
 
 // List returns the registry sorted by name.
